@@ -41,13 +41,13 @@ def monitor_models(rep, pid, n, ndates=4, opts=None, mode="exact", known=None):
         stats["sizes"][size] = stats["sizes"].get(size, 0) + 1
         stats["raised"] += int(err is not None)
         for nd in cfg["nodes"]:
-            stats["classes"][nd["type_"]] = stats["classes"].get(nd["type_"], 0) + 1
+            stats["classes"][NG.cls_of(nd)] = stats["classes"].get(NG.cls_of(nd), 0) + 1
             for s in nd.get("surfaces", []):
                 stats["classes"][s["type_"]] = stats["classes"].get(s["type_"], 0) + 1
         rep.add_eval(("net", pid, seed), nontrivial=len(cfg["nodes"]) >= 4)
         if stats["models"] == 1:
             rep.samples.append({"model": {"seed": seed, "size": size, "polset": cfg["polset"],
-                                          "nodes": [(x["name"], x["type_"]) for x in cfg["nodes"]],
+                                          "nodes": [(x["name"], NG.cls_of(x)) for x in cfg["nodes"]],
                                           "arcs": [(a["in_port"], a["out_port"], a["type_"]) for a in cfg["arcs"]]}})
         for (p, msg, sig) in mon.viol:
             if sig:
